@@ -399,7 +399,7 @@ func Run(r *fw.Run) {
 
 	// tree form
 	scratch := r.Scratch()
-	treePool := []string{"cmd/vendor/vendor.go", "cmd/vendor/p/x.go", "Z/vendor/v.go", "a", "A", "a/b", "go.mod", "GO.MOD", "sub/go.mod", "sub/GO.MOD", "sub/x.go", "sub/deep/y.go", "vendor/modules.txt", "vendor/x.go", "vendor/p/x.go", "pkg/vendor/vendor.go", "pkg/vendor/p/x.go", "LICENSE", ".hg_archival.txt", "con", "é", "K", "k", "\u212a", "a b", "a:b", "x.", "sub/go.mod/n.txt", "go.mod/n.txt", "sub/vendor/go.mod/n.txt"}
+	treePool := []string{"cmd/vendor/vendor.go", "cmd/vendor/p/x.go", "Z/vendor/v.go", "a", "A", "a/b", "go.mod", "GO.MOD", "sub/go.mod", "sub/GO.MOD", "sub/x.go", "sub/deep/y.go", "sub/deep/go.mod", "vendor/modules.txt", "vendor/x.go", "vendor/p/x.go", "pkg/vendor/vendor.go", "pkg/vendor/p/x.go", "LICENSE", ".hg_archival.txt", "con", "é", "K", "k", "\u212a", "a b", "a:b", "x.", "sub/go.mod/n.txt", "go.mod/n.txt", "sub/vendor/go.mod/n.txt"}
 	var trees [][]string
 	for i := range treePool {
 		trees = append(trees, []string{treePool[i]})
@@ -408,6 +408,18 @@ func Run(r *fw.Run) {
 			if r.Thorough() {
 				for k := j + 1; k < len(treePool); k++ {
 					trees = append(trees, []string{treePool[i], treePool[j], treePool[k]})
+				}
+			}
+		}
+	}
+	// nested modules inside nested modules: all triples and quadruples over a small pool, in both tiers
+	nest := []string{"sub/go.mod", "sub/deep/go.mod", "sub/x.go", "sub/deep/y.go", "sub/deep/z/w.go", "sub/a.go", "go.mod"}
+	for i := range nest {
+		for j := i + 1; j < len(nest); j++ {
+			for k := j + 1; k < len(nest); k++ {
+				trees = append(trees, []string{nest[i], nest[j], nest[k]})
+				for m := k + 1; m < len(nest); m++ {
+					trees = append(trees, []string{nest[i], nest[j], nest[k], nest[m]})
 				}
 			}
 		}
